@@ -274,6 +274,15 @@ func runC09(seed int64, tier string, outDir string) *result {
 		n := len(d.logs)
 		for s := 0; s < steps; s++ {
 			r := rng.Intn(n)
+			if rng.Intn(12) == 0 {
+				// an append the access controller refuses: it fails, and the log reloads exactly as before
+				d.gate.deny = true
+				if _, err := d.logs[r].Append(context.Background(), []byte("refused"), nil); err == nil {
+					panic("gate did not refuse")
+				}
+				d.gate.deny = false
+				stats["refused_appends"]++
+			}
 			if n == 1 || rng.Intn(5) > 1 {
 				payload := fmt.Sprintf("h%d-%d-%d", hi, r, s)
 				if rng.Intn(9) == 0 {
@@ -415,6 +424,11 @@ func c09Monitor(mon *c11Monitor, ld *c09Load, d *c11Dag) {
 	seen := map[string]bool{}
 	for _, c := range ld.src.entries {
 		e := d.entries[c]
+		if e == nil {
+			// the source log holds an entry no successful append produced (reported above as an entry-set difference)
+			mon.fail("same-entries", "C09:"+name+":entries", "the source log holds an entry that no successful append returned", mk())
+			continue
+		}
 		k := fmt.Sprintf("%d/%x", e.time, e.id)
 		if seen[k] {
 			ties = true
